@@ -332,6 +332,29 @@ def must_reject(rc):
             except SyntaxError:
                 continue
             grid.append(e)
+    if rc.tier != 'quick':
+        # thorough: every dunder and introspection attribute any context value or builtin has, and positions nested in positions
+        more = sorted({a for v in list(safe_builtins().values()) + ['t', 1, [1], {'k': 1}, (i for i in ())] for a in dir(v)
+                       if a.startswith('__') or a.startswith(('gi_', 'cr_', 'ag_', 'f_', 'tb_', 'co_'))} - set(FORBIDDEN_ATTRS))
+        for pos in ATTR_POSITIONS:
+            for x in more:
+                e = pos.format(X=x)
+                try:
+                    _ast.parse(e, mode='eval')
+                except SyntaxError:
+                    continue
+                grid.append(e)
+        for outer in ATTR_POSITIONS[:29]:
+            for inner in ATTR_POSITIONS:
+                for x in ('__class__', 'format', 'gi_frame'):
+                    e = outer.replace('a.{X}', '(' + inner.format(X=x) + ').real').replace('{{', '{').replace('}}', '}')
+                    if '{X}' in e:
+                        continue
+                    try:
+                        _ast.parse(e, mode='eval')
+                    except SyntaxError:
+                        continue
+                    grid.append(e)
     rc.coverage['forbidden_attribute_grid'] = len(grid)
     for expr in grid:
         ctx = dict(safe_builtins())
@@ -392,7 +415,8 @@ def frame_routes(rc):
 
 
 def attribute_graph(rc):
-    """BFS over the non-dunder attribute graph from every context value, depth 2."""
+    """BFS over the non-dunder attribute graph from every context value, depth 2 (thorough: 3)."""
+    maxdepth = 2 if rc.tier == 'quick' else 3
     import types
     from tatsu.util.safeeval import safe_builtins
     sinks = 0
@@ -401,7 +425,7 @@ def attribute_graph(rc):
     bad_objs = {id(getattr(builtins, n)) for n in IMPURE if hasattr(builtins, n)} | {id(v) for v in real.values()}
     for name, v in list(safe_builtins().items()) + [('<str>', 't'), ('<dict>', {'n': 1}), ('<list>', [1]), ('<int>', 1)]:
         frontier = [((name,), v)]
-        for _depth in range(2):
+        for _depth in range(maxdepth):
             nxt = []
             for path, obj in frontier:
                 for a in dir(obj):
@@ -415,7 +439,7 @@ def attribute_graph(rc):
                     if isinstance(w, types.ModuleType) or id(w) in bad_objs:
                         sinks += 1
                         rc.violation('attribute-graph-reaches-sink', path=list(path + (a,)), sink=repr(w)[:80])
-                    elif callable(w) and len(path) < 2:
+                    elif callable(w) and len(path) < maxdepth:
                         nxt.append((path + (a,), w))
             frontier = nxt
     rc.add('evaluations', seen)
@@ -427,7 +451,7 @@ def run(rc):
     rc.pmap(shard, names, chunk=max(1, len(names) // 32))
     import itertools
     n = len(HISTORY_POOL)
-    hists = [h for k in (2, 3) for h in itertools.product(range(n), repeat=k)]
+    hists = [h for k in ((2, 3) if rc.tier == 'quick' else (2, 3, 4)) for h in itertools.product(range(n), repeat=k)]
     rc.pmap(history_shard, hists)
     rc.coverage['histories'] = len(hists)
     install()
